@@ -22,7 +22,7 @@ template <class M> std::vector<Z> flat(const M &m) { std::vector<Z> v; for (auto
 static Z wcode(long double w) { return (Z)(w * 4.0L); }
 
 Segs observe(const DirectedMultigraph &g) {
-    Segs S(7); size_t n = g.getSize();
+    Segs S(8); size_t n = g.getSize(); S[7] = iterSeg(g);
     S[0] = {(Z)n, (Z)g.getEdgeNumber(), (Z)g.getTotalEdgeNumber()};
     commonSegs(S, g, n);
     for (unsigned i = 0; i < n; i++) for (unsigned j = 0; j < n; j++) S[3].push_back(guard([&] { return (Z)g.getEdgeMultiplicity(i, j); }));
@@ -35,7 +35,7 @@ Segs observe(const DirectedMultigraph &g) {
     return S;
 }
 Segs observe(const UndirectedMultigraph &g) {
-    Segs S(7); size_t n = g.getSize();
+    Segs S(8); size_t n = g.getSize(); S[7] = iterSeg(g);
     S[0] = {(Z)n, (Z)g.getEdgeNumber(), (Z)g.getTotalEdgeNumber()};
     commonSegs(S, g, n);
     for (unsigned i = 0; i < n; i++) for (unsigned j = 0; j < n; j++) S[3].push_back(guard([&] { return (Z)g.getEdgeMultiplicity(i, j); }));
@@ -49,7 +49,7 @@ Segs observe(const UndirectedMultigraph &g) {
     return S;
 }
 Segs observe(const DirectedWeightedGraph &g) {
-    Segs S(8); size_t n = g.getSize();
+    Segs S(9); size_t n = g.getSize(); S[8] = iterSeg(g);
     S[0] = {(Z)n, (Z)g.getEdgeNumber(), wcode(g.getTotalWeight())};
     commonSegs(S, g, n);
     for (unsigned i = 0; i < n; i++) for (unsigned j = 0; j < n; j++) {
@@ -66,7 +66,7 @@ Segs observe(const DirectedWeightedGraph &g) {
     return S;
 }
 Segs observe(const UndirectedWeightedGraph &g) {
-    Segs S(8); size_t n = g.getSize();
+    Segs S(9); size_t n = g.getSize(); S[8] = iterSeg(g);
     S[0] = {(Z)n, (Z)g.getEdgeNumber(), wcode(g.getTotalWeight())};
     commonSegs(S, g, n);
     for (unsigned i = 0; i < n; i++) for (unsigned j = 0; j < n; j++) {
